@@ -377,7 +377,11 @@ where
   ) {
     for (inst, gen) in instance_generations {
       if let Some(imd) = self.instance_map.get_mut(inst) {
-        imd.last_generation_accessed = *gen;
+        // The most recent generation viewed never goes back: reading an older
+        // sample again must not make an already viewed generation New again.
+        if gen.total() > imd.last_generation_accessed.total() {
+          imd.last_generation_accessed = *gen;
+        }
       } else {
         panic!("Instance disappeared!?!!1!");
       }
